@@ -19,7 +19,7 @@ From Coq Require Import NArith List Bool Arith Permutation.
 From DBG Require Import Gen.SourceConsts Spec.Dna Spec.ScanSpec Packed.ExtsMini Algo.KmerHist Algo.Scan Algo.Msp Algo.Filter
   Algo.GraphModel Algo.Pipeline Check.GraphCheck Check.PipelineCheck
   Proofs.MspProofs Proofs.FilterProofs Proofs.PipelineCheckProofs Proofs.UnitigUnique Proofs.ShardProofs Proofs.CombineProofs
-  Proofs.PipelineProofs.
+  Proofs.PipelineProofs Proofs.TableSpecProofs Proofs.PipelineCheckComplete.
 Import ListNotations.
 Open Scope nat_scope.
 
@@ -74,6 +74,13 @@ Theorem C04_shard_keys : forall max_len K P perm stranded, params_ok max_len K P
   forall ps, pieces_of max_len K P perm (negb stranded) reads = Some ps -> forall b e,
   In e (fst (reference summarize ra K stranded (shard_seqs ps b))) -> SH P perm (negb stranded) (fst (fst e)) = b.
 Proof. intros ml K P perm st Hp Hperm DS. exact (shard_keys ml K P perm st Hp Hperm). Qed.
+
+(* ... and the keys of the table that filter_kmers (CountFilterSet thr) hands to the compressor are exactly the retained
+   k-mers of the Layer-S graph specification (first half of graph_exact at table level) *)
+Theorem C04_table_keys_retained : forall K st thr ra (lreads : list lread),
+  map (fun e => fst (fst e)) (fst (reference (count_filter_set thr) ra K st (whole_reads lreads))) =
+  retained K st thr (map fst lreads).
+Proof. exact table_keys_retained. Qed.
 
 (* ---- link lemma 3: per-shard pruning (remove_censored_exts_sharded on the shard's part of the valid keys and of
    all_kmers) never removes an extension bit that the global pruning (remove_censored_exts) keeps, and only removes
@@ -130,6 +137,13 @@ Proof. exact chk_same_assembly_sound. Qed.
 Theorem C04_chk_assembly_sound : forall K st thr mode lreads g,
   chk_assembly K st thr mode lreads g = true -> assembly_of K st thr mode lreads g.
 Proof. exact chk_assembly_sound. Qed.
+(* ... and complete: a rejection is a genuine failure of the specification, never a false alarm *)
+Theorem C04_chk_same_assembly_complete : forall K st mode g1 g2,
+  same_assembly K st mode g1 g2 -> chk_same_assembly K st mode g1 g2 = true.
+Proof. exact chk_same_assembly_complete. Qed.
+Theorem C04_chk_assembly_complete : forall K st thr mode lreads g,
+  assembly_of K st thr mode lreads g -> chk_assembly K st thr mode lreads g = true.
+Proof. exact chk_assembly_complete. Qed.
 Theorem C04_chk_assembly_same : forall K st thr mode lreads g1 g2,
   chk_assembly K st thr mode lreads g1 = true -> chk_assembly K st thr mode lreads g2 = true ->
   same_assembly K st mode g1 g2.
@@ -172,6 +186,7 @@ Print Assumptions C04_shard_tables_restrict.
 Print Assumptions C04_shard_filter_restrict.
 Print Assumptions C04_shard_tables_union.
 Print Assumptions C04_shard_keys.
+Print Assumptions C04_table_keys_retained.
 Print Assumptions C04_sharded_prune_sound.
 Print Assumptions C04_prune_exts_sub.
 Print Assumptions C04_combine_spec.
@@ -181,5 +196,7 @@ Print Assumptions C04_assembly_unique.
 Print Assumptions C04_sharded_eq_direct_partial.
 Print Assumptions C04_chk_same_assembly_sound.
 Print Assumptions C04_chk_assembly_sound.
+Print Assumptions C04_chk_same_assembly_complete.
+Print Assumptions C04_chk_assembly_complete.
 Print Assumptions C04_chk_assembly_same.
 Print Assumptions C04_nonvacuous.
